@@ -156,17 +156,44 @@ def _run_chunk(chunk):
     for item in chunk:
         try:
             r = _PROP.run(item)
-        except Exception:  # harness bug: must never be swallowed
-            acc.count("harness_errors")
-            acc.violation(
-                "HARNESS-ERROR",
-                "exception inside the harness (not a verdict about the property)",
-                item,
-                observed=traceback.format_exc()[-1500:],
-            )
+        except Exception as e:  # must never be swallowed
+            sig, what = exc_signature(e)
+            acc.count("harness_errors" if sig == "HARNESS-ERROR" else "library_exceptions")
+            acc.violation(sig, what, item, observed=traceback.format_exc()[-1500:])
             continue
         acc.merge(r)
     return acc
+
+
+def exc_signature(e):
+    """An exception that escaped a property module.
+
+    Raised by a frame of the library itself (innermost traceback frame inside the acnportal package)
+    while the harness was driving it with an input of the property's domain: the library refuses /
+    crashes on a behaviour the property says it has -> a violation, signature
+    `library-exception:<Type>:<file>:<function>`.  Raised by a harness frame (e.g. the harness reads a
+    private attribute that a refactoring renamed): no verdict about the property -> HARNESS-ERROR
+    (exit 3, never a VIOLATION line)."""
+    import acnportal
+
+    root = os.path.dirname(os.path.realpath(acnportal.__file__)) + os.sep
+    tb = traceback.extract_tb(e.__traceback__)
+    inner = tb[-1] if tb else None
+    # skip frames of third-party packages called by the library (numpy / pandas raising on the library's behalf)
+    lib = None
+    for fr in reversed(tb):
+        fn = os.path.realpath(fr.filename)
+        if fn.startswith(root):
+            lib = fr
+            break
+        if fn.startswith(VERIF + os.sep):
+            break
+    if lib is not None:
+        sig = "library-exception:%s:%s:%s" % (type(e).__name__, os.path.basename(lib.filename), lib.name)
+        return sig, "the library raised %s: %s (in %s, %s) on an input of the property's domain" % (
+            type(e).__name__, str(e)[:200], os.path.basename(lib.filename), lib.name)
+    return "HARNESS-ERROR", "exception inside the harness (no verdict about the property): %s: %s at %s" % (
+        type(e).__name__, str(e)[:200], ("%s:%s" % (os.path.basename(inner.filename), inner.lineno)) if inner else "?")
 
 
 def _chunks(items, n):
@@ -277,7 +304,17 @@ def main(argv=None):
     if args.replay:
         with open(args.replay) as f:
             rec = json.load(f)
-        vs = prop.replay(rec["scenario"])
+        if str(rec.get("signature", "")).startswith("library-exception:"):
+            try:
+                prop.run(rec["scenario"])
+                vs = []
+            except Exception as e:
+                sig, what = exc_signature(e)
+                if sig == "HARNESS-ERROR":
+                    raise
+                vs = [{"signature": sig, "what": what, "observed": traceback.format_exc()[-800:]}]
+        else:
+            vs = prop.replay(rec["scenario"])
         known = load_known(pid)
         bad = 0
         for v in vs:
@@ -321,19 +358,27 @@ def main(argv=None):
 
     # ---- confirm violations by replaying each recorded scenario -------------
     known = load_known(pid)
-    confirmed, nondeterministic = [], []
+    confirmed, nondeterministic, harness_errors = [], [], []
     seen_sig = set()
     for v in total.violations:
         if v["signature"] in seen_sig:
             continue
         if v["signature"] == "HARNESS-ERROR":
-            confirmed.append(v)
+            harness_errors.append(v)
             seen_sig.add(v["signature"])
             continue
-        try:
-            again = prop.replay(v["scenario"])
-        except Exception:
-            again = [{"signature": "REPLAY-CRASH", "what": traceback.format_exc()[-800:]}]
+        if v["signature"].startswith("library-exception:"):
+            # the scenario is the whole work item: run it again, the same exception must escape again
+            try:
+                prop.run(v["scenario"])
+                again = []
+            except Exception as e:
+                again = [{"signature": exc_signature(e)[0]}]
+        else:
+            try:
+                again = prop.replay(v["scenario"])
+            except Exception:
+                again = [{"signature": "REPLAY-CRASH", "what": traceback.format_exc()[-800:]}]
         sigs = {a["signature"] for a in again}
         if v["signature"] not in sigs and isinstance(v["scenario"], dict) and v["scenario"].get("only") is not None:
             # the scenario pins one case of a work item; if the verdict depends on what the same objects were
@@ -360,6 +405,10 @@ def main(argv=None):
         print("  signature=%s :: %s" % (v["signature"], v["what"]))
         print("VIOLATION property=%s replay=%s" % (pid, path))
         exit_code = 1
+    for v in harness_errors:
+        print("HARNESS-ERROR property=%s (no verdict) %s\n%s" % (pid, v["what"], (v.get("observed") or "")[-1200:]), file=sys.stderr)
+        if exit_code == 0:
+            exit_code = 3
     for v, sigs in nondeterministic:
         print(
             "HARNESS-NONDETERMINISM property=%s signature=%s not reproduced on replay (got %s)"
